@@ -21,6 +21,7 @@ Robustness sweeps of the rules against behaviour-preserving changes of *shape* (
   walrus       `x = E` immediately followed by an `if` whose test evaluates x first becomes `if (x := E) ...`;
   tern_fold    `if c: x = a else: x = b` becomes `x = a if c else b`;
   ann_assign   `x = v` inside a function becomes the annotated assignment `x: 'object' = v`;
+  lock_unfold  `with lock: B` becomes `lock.acquire()` / `try: B` / `finally: lock.release()`;
   move_method  every undecorated method (not used by the class body itself) is moved to the end of its class.
 
 Neither changes what the program does, so every finding on such a variant is a false alarm of a rule that matched the
